@@ -20,7 +20,7 @@ from datetime import datetime, timezone
 from time import time as stdlib_time
 from typing import Any, Generic, TypeVar
 from warnings import warn
-from weakref import ReferenceType, WeakKeyDictionary
+from weakref import ReferenceType
 
 from anyio import BrokenResourceError, WouldBlock, create_memory_object_stream
 from anyio.streams.memory import MemoryObjectSendStream
@@ -29,7 +29,9 @@ from ._exceptions import UnboundSignal
 from ._utils import qualified_name
 
 T_Event = TypeVar("T_Event", bound="Event")
-bound_signals = WeakKeyDictionary[Hashable, "dict[str, Signal[Any]]"]()
+# Keyed by the identity of the owner instance, so that instances that compare equal do
+# not share their bound signals; the entry is dropped when the instance is collected
+bound_signals: dict[int, tuple[ReferenceType[Any], dict[str, Signal[Any]]]] = {}
 
 
 class SignalQueueFull(UserWarning):
@@ -96,14 +98,21 @@ class Signal(Generic[T_Event]):
         if instance is None:
             return self
 
+        key = id(instance)
         try:
-            return bound_signals[instance][self._topic]
+            return bound_signals[key][1][self._topic]
         except KeyError:
             bound_signal = Signal(self.event_class)
             bound_signal._topic = self._topic
             bound_signal._instance = weakref.ref(instance)
             bound_signal._send_streams = []
-            bound_signals.setdefault(instance, {})[self._topic] = bound_signal
+            if key not in bound_signals:
+                bound_signals[key] = (
+                    weakref.ref(instance, lambda _: bound_signals.pop(key, None)),
+                    {},
+                )
+
+            bound_signals[key][1][self._topic] = bound_signal
             return bound_signal
 
     def __set_name__(self, owner: Any, name: str) -> None:
